@@ -342,6 +342,9 @@ def k_flow_chunks(flavour: str) -> list[Result]:
                 conj.append(z3.Or(last_window == 0, last_frame == 0))
                 if len(args) != 1 or kw:
                     return False
+                # processing events is where WINDOW_UPDATE and SETTINGS(MAX_FRAME_SIZE) are applied:
+                # what was read from the h2 state before is stale from here on
+                last_window = last_frame = None
             elif fn.endswith("send_data"):
                 if last_window is None or last_frame is None or len(args) != 2:
                     return False
@@ -359,7 +362,7 @@ def k_flow_chunks(flavour: str) -> list[Result]:
         fs = [m.eval(kw["value"], model_completion=True).as_long() for fn, a, kw in p.calls if fn.endswith("max_outbound_frame_size")]
         return {"data": _bytes_of(m, D), "windows": ws, "frames": fs}
 
-    r = _discharge(it, name, f"every DATA chunk is non-empty and within the reported window and frame size, chunks concatenate to the data, "
+    r = _discharge(it, name, f"every DATA chunk is non-empty and within the window and the frame size as read from the h2 state after the last processing of events, chunks concatenate to the data, "
                    f"events are awaited exactly while the flow is zero (data <= {MAXLEN} bytes, <= {ZERO_POLLS} consecutive empty polls)",
                    paths, prop, assume, cex)
     return [r]
@@ -423,11 +426,12 @@ def replay_flow_chunks(flavour: str, args: dict[str, typing.Any]) -> bool:
         elif ev[0] == "f":
             f = ev[1]
         elif ev[0] == "recv":
-            if ev[1] != "ABSENT" or not (w == 0 or f == 0):
+            if ev[1] != "ABSENT" or w is None or f is None or not (w == 0 or f == 0):
                 return True
+            w = f = None  # readings taken before the events were processed are stale
         elif ev[0] == "send":
             ch = ev[1]
-            if not (1 <= len(ch) <= w and len(ch) <= f):
+            if w is None or f is None or not (1 <= len(ch) <= w and len(ch) <= f):
                 return True
             if i + 1 >= len(log) or log[i + 1][0] != "write":
                 return True
